@@ -1602,10 +1602,15 @@ func (c *compiler) compileCallInternal(
 				if c.codes[j+2].op == opconst {
 					c.codes[j] = &code{op: oppush, v: c.codes[j+2].v}
 					c.codes = c.codes[:j+1]
-				} else {
+				} else if c.codes[j+1].v.([3]int)[1] == 0 {
 					c.codes[j] = &code{op: opload, v: v}
 					c.codes[j+1] = c.codes[j+2]
 					c.codes = c.codes[:j+2]
+				} else { // the argument owns variables, keep its scope
+					c.append(&code{op: opload, v: v})
+					c.append(&code{op: oppushpc, v: pc})
+					c.append(&code{op: opcallpc})
+					break
 				}
 				s := c.scopes[len(c.scopes)-1]
 				s.funcs = s.funcs[:len(s.funcs)-1]
